@@ -42,7 +42,8 @@ def instances(tier, seed):
     rng.shuffle(ones)
     pick = pick[:4 if tier == "quick" else 12] + ones[:2 if tier == "quick" else 6]
     for n, spec, e in pick:
-        d = dict(name="weld:" + n, harness="C06_weldoffset.cpp", args=[spec, "1" if e else "0"])
+        # (trees with a Ground-attached identity-frame Translation body = RBNodeLoneParticle get their own prefix: known finding)
+        d = dict(name=("weldlone:" if "lone" in n else "weld:") + n, harness="C06_weldoffset.cpp", args=[spec, "1" if e else "0"])
         if tier == "thorough":
             d["base_points"] = 3
         out.append(d)
@@ -97,7 +98,7 @@ def free_sets(inst, tr, tier, rng):
 
 def obligations(enc, inst, tr):
     kind = inst["name"].split(":")[0]
-    return {"weld": ob_weld, "rev": ob_rev, "euler": ob_euler, "custom": ob_custom}[kind](enc, inst, tr)
+    return {"weld": ob_weld, "weldlone": ob_weld, "rev": ob_rev, "euler": ob_euler, "custom": ob_custom}[kind](enc, inst, tr)
 
 
 def _sv(enc, pre):
@@ -122,7 +123,8 @@ def ob_weld(enc, inst, tr):
         for q, txt in (("V", "spatial velocity"), ("A", "spatial acceleration"), ("R", "mobilizer reaction force")):
             aw, av = _sv(enc, "A_%s%d" % (q, k))
             bw, bv = _sv(enc, "B_%s%d" % (q, k))
-            obs.append(eqs(enc, "body %d: %s rotated by R_X" % (k, txt), list(zip(bw, la.matvec(RX, aw))) + list(zip(bv, la.matvec(RX, av)))))
+            nm = ("reaction force of body %d rotated by R_X" % k) if q == "R" else "body %d: %s rotated by R_X" % (k, txt)
+            obs.append(eqs(enc, nm, list(zip(bw, la.matvec(RX, aw))) + list(zip(bv, la.matvec(RX, av)))))
     obs.append(eqs(enc, "udot unchanged", [(enc.out("B_udot_%d" % i), enc.out("A_udot_%d" % i)) for i in range(nu)]))
     obs.append(eqs(enc, "qdot unchanged", [(enc.out("B_qdot_%d" % i), enc.out("A_qdot_%d" % i)) for i in range(nq)]))
     obs.append(eqs(enc, "kinetic energy unchanged", [(enc.out("B_KE"), enc.out("A_KE"))]))
